@@ -31,6 +31,24 @@ Theorem C02_section_header_reported :
 Proof. exact section_load_reports. Qed.
 Print Assumptions C02_section_header_reported.
 
+(* the whole section header table: [secs] encoded entry after entry (entry size es >= the header size, any filler
+   between them) at e_shoff of the stream; the loop of load_sections reports, for every index, a section with exactly
+   the encoded header fields, in table order, and leaves the stream good *)
+Theorem C02_section_header_table_reported :
+  forall junk enc c shoff es (secs : list section) fuel st i racc allocs,
+    is_fail st = false -> st_inv st -> shoff < 2 ^ 62 -> shdr_size c <= es ->
+    shoff + (i + lenN secs) * es < 2 ^ 62 -> shoff + (i + lenN secs) * es <= lenN (is_content st) ->
+    Forall (fun s => s_cls s = c /\ shdr_wf s) secs ->
+    (forall k s, nth_optN secs k = Some s -> sliceN (is_content st) (shoff + (i + k) * es) (shdr_size c) = shdr_bytes enc s) ->
+    (length secs <= fuel)%nat ->
+    exists st' loaded,
+      load_sections_loop junk fuel st [] c enc shoff es i (i + lenN secs) true racc allocs = Ok (st', rev loaded ++ racc, allocs) /\
+      is_fail st' = false /\ st_inv st' /\ is_content st' = is_content st /\
+      Forall2 same_hdr secs loaded /\
+      Forall (fun r => s_data r = None /\ s_stream_size r = lenN (is_content st) /\ s_cls r = c) loaded.
+Proof. exact load_sections_loop_reports. Qed.
+Print Assumptions C02_section_header_table_reported.
+
 (* program headers: decoding the gABI encoding gives back every field *)
 Theorem C02_program_header_codec :
   forall enc g0 g ss lz,
